@@ -190,7 +190,7 @@ def run_dir(kind, tier, seed, C):
         procs.append((idx, name, Coqc(["coqc"] + C["COQ_Q"] + [name + ".v"], C["bdir"], C["ENV"])))
     err = None; steps = 0; runs = 0
     for t in terms:
-        steps += t.count("U (") + t.count("R (mkStrat") + t.count("C (mkFlags"); runs += t.count("R (mkStrat") + t.count("C (mkFlags")
+        steps += t.count("U (") + t.count("R (mkStrat") + t.count("C (mkFlags") + t.count("CF (mkFlags"); runs += t.count("R (mkStrat") + t.count("C (mkFlags") + t.count("CF (mkFlags")
     for idx, name, pr in procs:
         try: o, e = pr.communicate(timeout=14000)
         except subprocess.TimeoutExpired:
